@@ -1400,6 +1400,10 @@ def check_c16(c, result):
     lines = []
     for i, u in enumerate(unbalanced):
         lines += [okq[i % len(okq)], u]
+    # ... and very long VALID lines (5 KB, 70 KB: past the buffer sizes a line reader is likely to have) between them
+    for nat in (120, 1700):
+        lines.append('FROM class_declaration AS cd WHERE ' + ' && '.join('cd.getName() != "no_such_name_%d"' % k for k in range(nat)) + ' SELECT cd.getName()')
+        lines.append(okq[1 % len(okq)])
     lines += [okq[0], 'FROM class_declaration AS cd SELECT cd.getName()']
     data = ('\n'.join(lines) + '\n:quit\n').encode()
     alone, _, _ = c.run([('cl%d' % i, t) for i, t in enumerate(lines)])
@@ -1435,17 +1439,33 @@ def console_run(c, data, chunking, transcript=False):
         if chunking == 'one':
             out, err = p.communicate(data, timeout=120)
         else:
+            # the console's output is read WHILE the input is written (its echo of a long line alone fills a pipe)
+            import threading
+            chunks = []
+            rd = threading.Thread(target=lambda: chunks.append(p.stdout.read()), daemon=True)
+            rd.start()
             step = 1 if chunking == 'bytes' else None
-            if step:
-                for i in range(0, len(data)):
-                    p.stdin.write(data[i:i + 1]); p.stdin.flush()
-                    if i % 64 == 0:
-                        time.sleep(0.001)
-            else:
-                for ln in data.split(b'\n')[:-1]:
-                    p.stdin.write(ln + b'\n'); p.stdin.flush(); time.sleep(0.02)
-            p.stdin.close()
-            out = p.stdout.read()
+            try:
+                if step:
+                    # byte by byte for the first 4000 bytes, then in odd-sized pieces (997 bytes)
+                    i = 0
+                    while i < len(data):
+                        n_ = 1 if i < 4000 else 997
+                        p.stdin.write(data[i:i + n_]); p.stdin.flush()
+                        if i % 64 == 0 and i < 4000:
+                            time.sleep(0.001)
+                        i += n_
+                else:
+                    for ln in data.split(b'\n')[:-1]:
+                        p.stdin.write(ln + b'\n'); p.stdin.flush(); time.sleep(0.02)
+                p.stdin.close()
+            except BrokenPipeError:
+                pass                      # the console has ended (it read :quit) while input was still being written
+            rd.join(timeout=300)
+            if rd.is_alive():
+                p.kill()
+                return -1
+            out = b''.join(chunks)
             p.wait(timeout=120)
     except subprocess.TimeoutExpired:
         p.kill()
@@ -1690,10 +1710,10 @@ def check_c10_c11(c, result):
                                               how='pathfinder query --project D --output json --query <query>; exit status / panic'))
                 break
     if pid == 'C10':
-        env_matrix_cli(c, result, 'C10', ['FROM class_declaration AS cd SELECT cd.getName()', 'FROM method_declaration AS m WHERE m.getName() SELECT m', 'FROM WHERE'], modes=('json',))
+        env_matrix_cli(c, result, 'C10', ['FROM class_declaration AS cd WHERE cd.getName() != "zz" SELECT cd.getName()', 'FROM WHERE'], modes=('json',))
         # candidate counts x CPU counts: a tower of directories with one method each, scanned from every level
         # (n = 1 .. K candidates), under several GOMAXPROCS: what splits the candidates into chunks must do so for every n
-        K = 210 if c.tier == 'quick' else 700
+        K = 190 if c.tier == 'quick' else 700
         tower = c.work + '/tower'
         d = tower
         for i in range(K):
@@ -1703,7 +1723,7 @@ def check_c10_c11(c, result):
         sweep_q = [('sw0', 'FROM method_declaration AS m WHERE m.getName() != "zz" SELECT m.getName()'), ('sw1', 'FROM method_declaration AS m WHERE m.getName() SELECT m'),
                    ('sw2', 'FROM method_declaration AS m SELECT m.getName()')]
         procs = ['16', '24', '64', '3', '8', '2', '48', '12']
-        ns = list(range(120, K + 1)) if c.tier == 'quick' else list(range(1, K + 1))
+        ns = list(range(126, K + 1)) if c.tier == 'quick' else list(range(1, K + 1))
         for j, n in enumerate(ns):
             path = tower + '/d' * (K - n + 1)
             for pr in ([procs[j % len(procs)]] if c.tier == 'quick' else procs[:6]):
